@@ -859,6 +859,12 @@ func (c *Compiler) compileVariable(expr *ast.VariableExpr) error {
 
 // compileBinaryOp compiles binary operation
 func (c *Compiler) compileBinaryOp(expr *ast.BinaryOpExpr) error {
+	// && and || short-circuit, as they do in the interpreter: the right
+	// operand is neither evaluated nor type-checked when the left decides.
+	if expr.Op == ast.And || expr.Op == ast.Or {
+		return c.compileLogicalOp(expr)
+	}
+
 	// Compile left operand
 	if err := c.compileExpression(expr.Left); err != nil {
 		return err
@@ -901,6 +907,43 @@ func (c *Compiler) compileBinaryOp(expr *ast.BinaryOpExpr) error {
 		return fmt.Errorf("unsupported binary operator: %v", expr.Op)
 	}
 
+	return nil
+}
+
+// compileLogicalOp compiles `a && b` / `a || b` with short-circuit evaluation:
+//
+//	<a>; JumpIfFalse/JumpIfTrue decided   (type-checks a, as the interpreter does)
+//	<b>; Push neutral; And/Or             (type-checks b and yields it)
+//	Jump end
+//	decided: Push false/true
+//	end:
+func (c *Compiler) compileLogicalOp(expr *ast.BinaryOpExpr) error {
+	if err := c.compileExpression(expr.Left); err != nil {
+		return err
+	}
+
+	jumpOp, combineOp, decided := vm.OpJumpIfFalse, vm.OpAnd, false
+	if expr.Op == ast.Or {
+		jumpOp, combineOp, decided = vm.OpJumpIfTrue, vm.OpOr, true
+	}
+
+	jumpToDecided := len(c.code)
+	c.emitWithOperand(jumpOp, 0) // Placeholder
+
+	if err := c.compileExpression(expr.Right); err != nil {
+		return err
+	}
+	// `true && b` / `false || b` is b, with the boolean type check on b
+	c.emitWithOperand(vm.OpPush, uint32(c.addConstant(vm.BoolValue{Val: !decided})))
+	c.emit(combineOp)
+
+	jumpToEnd := len(c.code)
+	c.emitWithOperand(vm.OpJump, 0) // Placeholder
+
+	c.patchJump(jumpToDecided, uint32(len(c.code)))
+	c.emitWithOperand(vm.OpPush, uint32(c.addConstant(vm.BoolValue{Val: decided})))
+
+	c.patchJump(jumpToEnd, uint32(len(c.code)))
 	return nil
 }
 
